@@ -368,14 +368,24 @@ func (m *UDPMuxDefault) writeToContext(ctx context.Context, buf []byte, rAddr ne
 		// canceled while WriteTo is blocked, abortWrite interrupts it by
 		// temporarily setting the shared socket write deadline to now.
 		stopAbort := make(chan struct{})
+		// abortMu makes "this write is still in flight" and the abort one step: an
+		// abort that was decided on must finish before this write is allowed to
+		// return (its finishWrite then clears the deadline), and no abort can start
+		// once the write has returned. Otherwise a delayed abort would arm the
+		// shared write deadline under a later, unrelated write.
+		var abortMu sync.Mutex
 		var stopped atomic.Bool
 		defer func() {
+			abortMu.Lock()
 			stopped.Store(true)
+			abortMu.Unlock()
 			close(stopAbort)
 		}()
 		go func() {
 			select {
 			case <-done:
+				abortMu.Lock()
+				defer abortMu.Unlock()
 				if !stopped.Load() {
 					verifhook.Yield("udpmux.ctxAbort.beforeAbort")
 					if abortErr := m.abortWrite(); abortErr != nil {
